@@ -276,17 +276,53 @@ theorem delDescendants_spec {s : Sys π ν} (hs : Sane s) (hr : RegsKnow s) (L :
 
 /-! ### what pruning preserves, whatever happens to the edges afterwards -/
 
-/-- a state whose nodes and registries are those of `s` pruned by `K`, with edge list `E'`: if the edges are
-    type-legal, roots are sources, only the mux has several inputs, and every multi-input node kept its
-    predecessor list with no predecessor in `K`, then it is well-formed -/
+/-- names that resolved to a node outside `K` keep resolving to it after pruning `K` -/
+theorem pruned_stab {s s0 s' : Sys π ν} (hs : Sane s) (hw : WFr s) {K : List Nat} (hp : Pruned s K s0)
+    (c2 : s'.nodes = s0.nodes) (c5 : s'.rails = s0.rails) {e : String} {q : Nat}
+    (he : s.getIndex e = .ok (some q)) (hq : q ∉ K) : s'.getIndex e = .ok (some q) := by
+  rw [getIndex_eq_resolve] at he ⊢
+  rw [c2, c5, hp.nodes, hp.rails]
+  apply resolve_filter (fun k => decide (k ∉ s.namesOf K)) he
+  intro k hk
+  simp only [decide_eq_true_eq]
+  intro hx
+  obtain ⟨k', hk', pc, hpc, hx⟩ := mem_namesOf.mp hx
+  obtain ⟨p, hp', hpn, hpq⟩ := nodes_get_live hw hk
+  have := name_inj hw.names_nodup (mem_of_payload? hpc) hp' (hx.trans hpn.symm)
+  rw [← hpq, ← this] at hq
+  exact hq hk'
+
+/-- a multi-input node whose predecessors, none of them pruned, and recorded names are untouched keeps its inputs -/
+theorem inputs_kept {s s0 s' : Sys π ν} (hs : Sane s) (hw : WFr s) {K : List Nat} (hp : Pruned s K s0)
+    (c2 : s'.nodes = s0.nodes) (c5 : s'.rails = s0.rails) {p : Nat × π} (hpm : p ∈ s.comps)
+    (hm : 1 < (s'.preds p.1).length) (e1 : s'.preds p.1 = s.preds p.1) (e2 : ∀ q ∈ s.preds p.1, q ∉ K)
+    (e3 : dget s'.pnames p.1 = dget s.pnames p.1) :
+    ∃ l, s'.parentsOf p.1 = .ok l ∧ (∀ x ∈ l, ∃ q ∈ s'.preds p.1, x = some q) ∧ l.Nodup := by
+  rw [e1] at hm ⊢
+  obtain ⟨l, hl, hl', hlnd⟩ := hw.inputs p hpm hm
+  refine ⟨l, ?_, hl', hlnd⟩
+  apply parentsOf_congr e1 e3 hl
+  intro x hx r hr
+  obtain ⟨r', hr', hx'⟩ := (parentsOf_multi hm hl).2 x hx
+  rw [getIndex_eq_resolve, hr] at hx'
+  simp only [Except.ok.injEq] at hx'
+  subst hx'
+  obtain ⟨q, hq, rfl⟩ := hl' r hr'
+  rw [← getIndex_eq_resolve] at hr ⊢
+  exact pruned_stab hs hw hp c2 c5 hr (e2 q hq)
+
+/-- a state whose nodes and registries are those of `s` pruned by `K`: if its edges are type-legal, roots are
+    sources, only the mux has several inputs, and the recorded inputs of every multi-input node resolve to its
+    predecessors, each once, then it is well-formed -/
 theorem wfr_of_pruned {s s0 s' : Sys π ν} (hs : Sane s) (hw : WFr s) {K : List Nat} (hp : Pruned s K s0)
     (c1 : s'.comps = s0.comps) (c2 : s'.nodes = s0.nodes) (c3 : s'.phaseConf = s0.phaseConf)
-    (c4 : s'.groups = s0.groups) (c5 : s'.rails = s0.rails) (c6 : s'.pnames = s0.pnames)
+    (c4 : s'.groups = s0.groups) (c5 : s'.rails = s0.rails)
     (hroots : ∀ p ∈ s'.comps, (s'.preds p.1 = [] ↔ kindOfC p.2 = .source))
     (hmulti : ∀ p ∈ s'.comps, 1 < (s'.preds p.1).length → kindOfC p.2 = .pmux)
     (hlinks : ∀ e ∈ s'.edges, ∀ pc cc, s'.payload? e.1 = some pc → s'.payload? e.2 = some cc →
         (kindOfC pc).acceptsChild (kindOfC cc).ctype = true)
-    (hin : ∀ p ∈ s'.comps, 1 < (s'.preds p.1).length → s'.preds p.1 = s.preds p.1 ∧ ∀ q ∈ s.preds p.1, q ∉ K) :
+    (hinputs : ∀ p ∈ s'.comps, 1 < (s'.preds p.1).length →
+        ∃ l, s'.parentsOf p.1 = .ok l ∧ (∀ x ∈ l, ∃ q ∈ s'.preds p.1, x = some q) ∧ l.Nodup) :
     WFr s' := by
   have hmem : ∀ p, p ∈ s'.comps ↔ p ∈ s.comps ∧ p.1 ∉ K := by
     intro p; rw [c1, hp.comps]; simp
@@ -319,19 +355,6 @@ theorem wfr_of_pruned {s s0 s' : Sys π ν} (hs : Sane s) (hw : WFr s) {K : List
     obtain ⟨h1, h2⟩ := List.mem_filter.mp hy
     obtain ⟨k, hk⟩ := mem_dvals.mp h1
     exact List.mem_filter.mpr ⟨mem_dvals.mpr ⟨k, (List.mem_filter.mp hk).1⟩, h2⟩
-  have hstab : ∀ e q, s.getIndex e = .ok (some q) → q ∉ K → s'.getIndex e = .ok (some q) := by
-    intro e q he hq
-    rw [getIndex_eq_resolve] at he ⊢
-    rw [c2, c5, hp.nodes, hp.rails]
-    apply resolve_filter (fun k => decide (k ∉ s.namesOf K)) he
-    intro k hk
-    simp only [decide_eq_true_eq]
-    intro hx
-    obtain ⟨k', hk', pc, hpc, hx⟩ := mem_namesOf.mp hx
-    obtain ⟨p, hp', hpn, hpq⟩ := nodes_get_live hw hk
-    have := name_inj hw.names_nodup (mem_of_payload? hpc) hp' (hx.trans hpn.symm)
-    rw [← hpq, ← this] at hq
-    exact hq hk'
   constructor
   · unfold Sys.names
     rw [c1, hp.comps]
@@ -361,20 +384,45 @@ theorem wfr_of_pruned {s s0 s' : Sys π ν} (hs : Sane s) (hw : WFr s) {K : List
   · intro y; rw [c4, hp.groups]; exact hkeys _ hw.groups_keys y
   · intro y; rw [c5, hp.rails]; exact hkeys _ hw.rails_keys y
   · intro y; rw [c3, hp.pconf]; exact hkeys _ hw.pconf_keys y
-  · intro p hp' hm
-    obtain ⟨e1, e2⟩ := hin p hp' hm
-    rw [e1] at hm ⊢
-    obtain ⟨l, hl, hl'⟩ := hw.inputs p ((hmem p).mp hp').1 hm
-    refine ⟨l, ?_, hl'⟩
-    apply parentsOf_congr e1 (by rw [c6, hp.pnames]) hl
-    intro x hx r hr
-    obtain ⟨r', hr', hx'⟩ := (parentsOf_multi hm hl).2 x hx
-    rw [getIndex_eq_resolve, hr] at hx'
-    simp only [Except.ok.injEq] at hx'
-    subst hx'
-    obtain ⟨q, hq, rfl⟩ := hl' r hr'
-    rw [← getIndex_eq_resolve] at hr ⊢
-    exact hstab x q hr (e2 q hq)
+  · exact hinputs
+
+/-- the registries of a pruned state are exact (so `_get_index` is total there) -/
+theorem regsExact_of_pruned {s s0 s' : Sys π ν} (hs : Sane s) (hw : WFr s) {K : List Nat} (hp : Pruned s K s0)
+    (c1 : s'.comps = s0.comps) (c2 : s'.nodes = s0.nodes) (c5 : s'.rails = s0.rails) : RegsExact s' := by
+  have hmem : ∀ p, p ∈ s'.comps ↔ p ∈ s.comps ∧ p.1 ∉ K := by
+    intro p; rw [c1, hp.comps]; simp
+  have hkeep : ∀ p, p ∈ s'.comps → nameOfC p.2 ∉ s.namesOf K := by
+    intro p h hx
+    obtain ⟨h1, h2⟩ := (hmem p).mp h
+    obtain ⟨k, hk, pc, hpc, hx⟩ := mem_namesOf.mp hx
+    have := name_inj hw.names_nodup (mem_of_payload? hpc) h1 hx
+    exact h2 (by rw [← this]; exact hk)
+  have hnames : ∀ y, y ∈ s'.names ↔ y ∈ s.names ∧ y ∉ s.namesOf K := by
+    intro y
+    constructor
+    · intro h
+      obtain ⟨p, hp', rfl⟩ := mem_names.mp h
+      exact ⟨mem_names_of_mem ((hmem p).mp hp').1, hkeep p hp'⟩
+    · rintro ⟨h1, h2⟩
+      obtain ⟨p, hp', rfl⟩ := mem_names.mp h1
+      refine mem_names.mpr ⟨p, (hmem p).mpr ⟨hp', ?_⟩, rfl⟩
+      intro hk
+      exact h2 (mem_namesOf.mpr ⟨p.1, hk, p.2, payload?_of_mem hs hp', rfl⟩)
+  have hkeys : ∀ {β : Type} (d : List (String × β)), (∀ y, y ∈ dkeys d ↔ y ∈ s.names) →
+      ∀ y, y ∈ dkeys (d.filter fun p => decide (p.1 ∉ s.namesOf K)) ↔ y ∈ s'.names := by
+    intro β d hd y
+    rw [dkeys_filter_key (d := d) (q := fun k => decide (k ∉ s.namesOf K)), hnames y]
+    simp [hd y]
+  constructor
+  · intro y hy
+    rw [c2, hp.nodes] at hy
+    exact (hkeys s.nodes (names_eq_nodes_keys hw) y).mp hy
+  · intro p hp'
+    rw [c2, hp.nodes, dget_filter_key (d := s.nodes) (q := fun k => decide (k ∉ s.namesOf K))]
+    have := hkeep p hp'
+    simp only [this, not_false_eq_true, decide_true, if_true]
+    exact hw.nodes_get p ((hmem p).mp hp').1
+  · intro y; rw [c5, hp.rails]; exact hkeys _ hw.rails_keys y
 
 /-- `del_comp(.., del_childs=True)`: the pruned set is closed under successors -/
 theorem wfr_pruned_closed {s s' : Sys π ν} (hs : Sane s) (hw : WFr s) {K : List Nat} (hp : Pruned s K s')
@@ -393,7 +441,7 @@ theorem wfr_pruned_closed {s s' : Sys π ν} (hs : Sane s) (hw : WFr s) {K : Lis
     · have h1 : e.1 ∉ K := fun h => hn (h2 ▸ hclosed e he h)
       simp [h2, hn, h1]
     · simp [h2]
-  apply wfr_of_pruned hs hw hp rfl rfl rfl rfl rfl rfl
+  apply wfr_of_pruned hs hw hp rfl rfl rfl rfl rfl
   · intro p h; rw [hpreds _ (hmem p h).2]; exact hw.roots p (hmem p h).1
   · intro p h; rw [hpreds _ (hmem p h).2]; exact hw.multi p (hmem p h).1
   · intro e he pc cc h1 h2
@@ -405,10 +453,10 @@ theorem wfr_pruned_closed {s s' : Sys π ν} (hs : Sane s) (hw : WFr s) {K : Lis
     exact hw.links e he pc cc h1 h2
   · intro p h hm
     have hn := (hmem p h).2
-    refine ⟨hpreds _ hn, ?_⟩
-    intro q hq hqK
-    exact hn (hclosed (q, p.1) (mem_preds.mp hq) hqK)
-
+    apply inputs_kept hs hw hp rfl rfl (hmem p h).1 hm (hpreds _ hn)
+    · intro q hq hqK
+      exact hn (hclosed (q, p.1) (mem_preds.mp hq) hqK)
+    · rw [hp.pnames]
 
 /-! ### `del_childs=False`: the children are re-linked to the (first) parent -/
 
@@ -478,14 +526,172 @@ theorem relink_spec {s : Sys π ν} (hs : Sane s) (p0 : Nat) (L : List Nat) (hp0
         · rw [i2]; exact List.mem_append_left _ hin
         · exact i4 d hd
 
-/-- the state after `remove_node(t)`, the four `del`, and the re-linking of `t`'s children to `p0` -/
-theorem wfr_relinked {s s2 s' : Sys π ν} (hs : Sane s) (hs' : Sane s') (hw : WFr s) {t p0 : Nat} {tc : π}
-    (ht : (t, tc) ∈ s.comps) (hp0 : p0 ∈ s.preds t) (hp : Pruned s [t] s2) {X : List (Nat × Nat)}
+/-! ### the de-duplication of the children's recorded inputs -/
+
+/-- `seen, plist = [], []; for p in l: if g(p) not in seen: …` as a pure function -/
+def dedupeP {α β : Type} [DecidableEq β] (g : α → β) : List α → List β → List α
+  | [], _ => []
+  | p :: ps, seen => if g p ∈ seen then dedupeP g ps seen else p :: dedupeP g ps (seen ++ [g p])
+
+theorem dedupeP_cons_of_mem {α β : Type} [DecidableEq β] {g : α → β} {p : α} {ps : List α} {seen : List β}
+    (h : g p ∈ seen) : dedupeP g (p :: ps) seen = dedupeP g ps seen := by simp [dedupeP, h]
+
+theorem dedupeP_cons_of_not_mem {α β : Type} [DecidableEq β] {g : α → β} {p : α} {ps : List α} {seen : List β}
+    (h : g p ∉ seen) : dedupeP g (p :: ps) seen = p :: dedupeP g ps (seen ++ [g p]) := by simp [dedupeP, h]
+
+theorem mem_dedupeP_map {α β : Type} [DecidableEq β] (g : α → β) (l : List α) (seen : List β) (x : β) :
+    x ∈ (dedupeP g l seen).map g ↔ x ∈ l.map g ∧ x ∉ seen := by
+  induction l generalizing seen with
+  | nil => simp [dedupeP]
+  | cons p ps ih =>
+    by_cases h : g p ∈ seen
+    · rw [dedupeP_cons_of_mem h, ih]
+      simp only [List.map_cons, List.mem_cons]
+      constructor
+      · rintro ⟨h1, h2⟩; exact ⟨Or.inr h1, h2⟩
+      · rintro ⟨h1 | h1, h2⟩
+        · exact absurd (h1 ▸ h) h2
+        · exact ⟨h1, h2⟩
+    · rw [dedupeP_cons_of_not_mem h]
+      have ih' := ih (seen ++ [g p])
+      simp only [List.map_cons, List.mem_cons, ih']
+      constructor
+      · rintro (h1 | ⟨h1, h2⟩)
+        · exact ⟨Or.inl h1, h1 ▸ h⟩
+        · exact ⟨Or.inr h1, fun hs => h2 (List.mem_append_left _ hs)⟩
+      · rintro ⟨h1 | h1, h2⟩
+        · exact Or.inl h1
+        · by_cases hx : x = g p
+          · exact Or.inl hx
+          · refine Or.inr ⟨h1, ?_⟩
+            intro hm
+            rcases List.mem_append.mp hm with hm | hm
+            · exact h2 hm
+            · simp at hm; exact hx hm
+
+theorem nodup_dedupeP_map {α β : Type} [DecidableEq β] (g : α → β) (l : List α) (seen : List β) :
+    ((dedupeP g l seen).map g).Nodup := by
+  induction l generalizing seen with
+  | nil => simp [dedupeP]
+  | cons p ps ih =>
+    by_cases h : g p ∈ seen
+    · rw [dedupeP_cons_of_mem h]; exact ih seen
+    · rw [dedupeP_cons_of_not_mem h]
+      simp only [List.map_cons, List.nodup_cons]
+      refine ⟨?_, ih _⟩
+      intro hm
+      have := (mem_dedupeP_map g ps (seen ++ [g p]) (g p)).mp hm
+      exact this.2 (by simp)
+
+theorem dedupeP_append {α β : Type} [DecidableEq β] (g : α → β) (a b : List α) (seen : List β) :
+    dedupeP g (a ++ b) seen = dedupeP g a seen ++ dedupeP g b (seen ++ (dedupeP g a seen).map g) := by
+  induction a generalizing seen with
+  | nil => simp [dedupeP]
+  | cons p ps ih =>
+    simp only [List.cons_append]
+    by_cases h : g p ∈ seen
+    · rw [dedupeP_cons_of_mem h, dedupeP_cons_of_mem h]; exact ih seen
+    · rw [dedupeP_cons_of_not_mem h, dedupeP_cons_of_not_mem h, ih]
+      simp [List.append_assoc]
+
+theorem resolveList_of_total {N : List (String × Nat)} {R : List (String × String)} {g : String → Option Nat}
+    (hg : ∀ p, resolve N R p = .ok (g p)) (l : List String) : resolveList N R l = .ok (l.map g) := by
+  induction l with
+  | nil => rfl
+  | cons x xs ih => simp [resolveList, hg x, ih]
+
+theorem dedupe_eq {s : Sys π ν} {g : String → Option Nat} (hg : ∀ p, s.getIndex p = .ok (g p))
+    (l : List String) (seen : List (Option Nat)) : s.dedupe l seen = .ok (dedupeP g l seen) := by
+  induction l generalizing seen with
+  | nil => rfl
+  | cons p ps ih =>
+    unfold Sys.dedupe
+    rw [hg p]
+    simp only
+    by_cases h : g p ∈ seen
+    · rw [dedupeP_cons_of_mem h]; simp only [h, if_true]; exact ih seen
+    · rw [dedupeP_cons_of_not_mem h]; simp only [h, if_false, ih]
+
+/-- the final loop over the children, when `_get_index` is total -/
+theorem dedupeChilds_spec {s : Sys π ν} {g : String → Option Nat} (L : List Nat) (hL : L.Nodup)
+    (hg : ∀ p, resolve s.nodes s.rails p = .ok (g p)) (hpn : ∀ c ∈ L, ∃ pl, dget s.pnames c = some pl) :
+    (s.dedupeChilds L).2 = .ok ∧ (s.dedupeChilds L).1.comps = s.comps ∧ (s.dedupeChilds L).1.edges = s.edges ∧
+    (s.dedupeChilds L).1.nodes = s.nodes ∧ (s.dedupeChilds L).1.phaseConf = s.phaseConf ∧
+    (s.dedupeChilds L).1.groups = s.groups ∧ (s.dedupeChilds L).1.rails = s.rails ∧
+    ∀ k, dget (s.dedupeChilds L).1.pnames k =
+      if k ∈ L then (dget s.pnames k).map (fun pl => dedupeP g pl []) else dget s.pnames k := by
+  induction L generalizing s with
+  | nil => exact ⟨rfl, rfl, rfl, rfl, rfl, rfl, rfl, fun k => by simp [Sys.dedupeChilds]⟩
+  | cons c cs ih =>
+    obtain ⟨pl, hpl⟩ := hpn c (by simp)
+    simp only [List.nodup_cons] at hL
+    unfold Sys.dedupeChilds
+    rw [hpl]
+    simp only
+    rw [dedupe_eq (g := g) (fun p => by rw [getIndex_eq_resolve]; exact hg p)]
+    simp only
+    have hpn' : ∀ d ∈ cs, ∃ pl', dget ({ s with pnames := dset s.pnames c (dedupeP g pl []) } : Sys π ν).pnames d = some pl' := by
+      intro d hd
+      obtain ⟨pl', hpl'⟩ := hpn d (List.mem_cons_of_mem _ hd)
+      have : d ≠ c := fun e => hL.1 (e ▸ hd)
+      exact ⟨pl', by simp [dget_dset, this, hpl']⟩
+    obtain ⟨i1, i2, i3, i4, i5, i6, i7, i8⟩ := ih (s := { s with pnames := dset s.pnames c (dedupeP g pl []) }) hL.2 hg hpn'
+    refine ⟨i1, i2, i3, i4, i5, i6, i7, ?_⟩
+    intro k
+    rw [i8 k]
+    by_cases hk : k = c
+    · subst hk
+      simp [hL.1, dget_dset, hpl]
+    · by_cases hk' : k ∈ cs
+      · simp [hk, hk', dget_dset]
+      · simp [hk, hk', dget_dset]
+
+/-- a duplicate-free list inside a list that is not longer covers it -/
+theorem subset_of_nodup_of_length_le {α : Type} [DecidableEq α] {l m : List α} (hn : l.Nodup)
+    (hsub : ∀ x ∈ l, x ∈ m) (hlen : m.length ≤ l.length) : ∀ x ∈ m, x ∈ l := by
+  intro x hx
+  apply Decidable.byContradiction
+  intro hxl
+  have h1 : ∀ y ∈ l, y ∈ m.erase x := by
+    intro y hy
+    have : y ≠ x := fun e => hxl (e ▸ hy)
+    exact (List.mem_erase_of_ne this).mpr (hsub y hy)
+  have h2 := hn.length_le_of_subset h1
+  rw [List.length_erase_of_mem hx] at h2
+  have : 0 < m.length := List.length_pos_of_mem hx
+  omega
+
+theorem parentsOf_multi_unfold {s : Sys π ν} {n : Nat} (hm : 1 < (s.preds n).length) {l : List (Option Nat)}
+    (h : s.parentsOf n = .ok l) :
+    ∃ pl, dget s.pnames n = some pl ∧ (s.preds n).length ≤ pl.length ∧
+      resolveList s.nodes s.rails (pl.take (s.preds n).length) = .ok l := by
+  unfold Sys.parentsOf at h
+  have hle : ¬ (s.preds n).length ≤ 1 := by omega
+  simp only [hle, if_false] at h
+  cases hp : dget s.pnames n with
+  | none => simp [hp] at h
+  | some pl =>
+    simp only [hp] at h
+    split at h
+    · simp at h
+    · next hlt =>
+      rw [resolveAll_eq] at h
+      exact ⟨pl, rfl, by omega, h⟩
+
+/-- the state after `remove_node(t)`, the four `del`, the re-linking of `t`'s children to `p0`, and the update of the
+    children's recorded inputs -/
+theorem wfr_relinked {s s2 s' : Sys π ν} (hs : Sane s) (hs' : Sane s') (hw : WFr s) {t p0 : Nat} {tc pc0 : π}
+    (ht : (t, tc) ∈ s.comps) (hp0 : p0 ∈ s.preds t) (hpc0 : s.payload? p0 = some pc0) (hp : Pruned s [t] s2)
+    {X : List (Nat × Nat)}
     (e1 : s'.edges = s2.edges ++ X) (e2 : ∀ e ∈ X, e.1 = p0 ∧ e.2 ∈ s.succs t)
     (e3 : ∀ c ∈ s.succs t, (p0, c) ∈ s'.edges)
     (c1 : s'.comps = s2.comps) (c2 : s'.nodes = s2.nodes) (c3 : s'.phaseConf = s2.phaseConf)
-    (c4 : s'.groups = s2.groups) (c5 : s'.rails = s2.rails) (c6 : s'.pnames = s2.pnames)
-    (hsafe : ∀ c ∈ s.succs t, 1 < (s.preds c).length → ∀ q ∈ s.preds c, q = t ∨ q = p0) : WFr s' := by
+    (c4 : s'.groups = s2.groups) (c5 : s'.rails = s2.rails)
+    (g : String → Option Nat) (hg : ∀ p, s'.getIndex p = .ok (g p))
+    (c6 : ∀ k, dget s'.pnames k =
+      if k ∈ s.succs t then
+        (dget s.pnames k).map fun pl => dedupeP g (pl.map fun p => if s.refersTo t p then nameOfC pc0 else p) []
+      else dget s.pnames k) : WFr s' := by
   have hpay : ∀ n, s'.payload? n = if n = t then none else s.payload? n := by
     intro n
     have := payload?_filter hs hp.comps n
@@ -525,37 +731,52 @@ theorem wfr_relinked {s s2 s' : Sys π ν} (hs : Sane s) (hs' : Sane s') (hw : W
     · have h1 : e.1 ≠ t := fun h => hn (mem_succs.mpr (by rw [← h, ← h2]; exact he))
       simp [h2, hnt, h1]
     · simp [h2]
+  -- the predecessors of a child of `t` afterwards
+  have hpredc : ∀ c ∈ s.succs t, ∀ q, q ∈ s'.preds c ↔ (q ∈ s.preds c ∧ q ≠ t) ∨ q = p0 := by
+    intro c hc q
+    have hct : c ≠ t := fun h => hs.acyclic t (.single (by rw [h] at hc; exact mem_succs.mp hc))
+    rw [mem_preds, hedge]
+    constructor
+    · rintro (⟨h1, h2, _⟩ | ⟨h1, _⟩)
+      · exact Or.inl ⟨mem_preds.mpr h1, h2⟩
+      · exact Or.inr h1
+    · rintro (⟨h1, h2⟩ | h1)
+      · exact Or.inl ⟨mem_preds.mp h1, h2, hct⟩
+      · exact Or.inr ⟨h1, hc⟩
   -- a child of `t` that had `t` as its only input now has `p0` as its only input
-  have hchild : ∀ n, n ∈ s.succs t → (∀ q ∈ s.preds n, q = t ∨ q = p0) → (s'.preds n).length ≤ 1 := by
-    intro n hn hall
+  have hchild : ∀ n, n ∈ s.succs t → (s.preds n).length ≤ 1 → (s'.preds n).length ≤ 1 := by
+    intro n hn hle
+    have htn : t ∈ s.preds n := mem_preds.mpr (mem_succs.mp hn)
     have hsub : ∀ q ∈ s'.preds n, q ∈ [p0] := by
       intro q hq
-      rcases (hedge q n).mp (mem_preds.mp hq) with ⟨h1, h2, _⟩ | ⟨h1, _⟩
-      · rcases hall q (mem_preds.mpr h1) with h | h
-        · exact absurd h h2
-        · simp [h]
+      rcases (hpredc n hn q).mp hq with ⟨h1, h2⟩ | h1
+      · exfalso
+        match hl : s.preds n, hle, htn, h1 with
+        | [a], _, h3, h4 => simp at h3 h4; exact h2 (h4.trans h3.symm)
       · simp [h1]
     exact (preds_nodup hs' n).length_le_of_subset hsub
-  have hchild' : ∀ n, n ∈ s.succs t → (s'.preds n).length ≤ 1 ∨ 1 < (s.preds n).length := by
-    intro n hn
-    by_cases hm : 1 < (s.preds n).length
-    · exact Or.inr hm
-    · left
-      apply hchild n hn
-      intro q hq
-      have htn : t ∈ s.preds n := mem_preds.mpr (mem_succs.mp hn)
-      have : (s.preds n).length ≤ 1 := by omega
-      left
-      match hl : s.preds n, this, htn, hq with
-      | [a], _, h1, h2 => simp at h1 h2; rw [h2, h1]
-  apply wfr_of_pruned hs hw hp c1 c2 c3 c4 c5 c6
+  have hreg := regsExact_of_pruned hs hw hp c1 c2 c5
+  have hp0live : (p0, pc0) ∈ s'.comps := (hmem _).mpr ⟨mem_of_payload? hpc0, hp0t⟩
+  have hgp0 : g (nameOfC pc0) = some p0 := by
+    have h1 := hreg.nodes_get (p0, pc0) hp0live
+    have h2 : s'.getIndex (nameOfC pc0) = .ok (some p0) := by
+      rw [getIndex_eq_resolve]; exact resolve_of_name h1
+    rw [hg] at h2
+    simpa using h2
+  have hrefers : ∀ e, s.refersTo t e = true ↔ s.getIndex e = .ok (some t) := by
+    intro e
+    unfold Sys.refersTo
+    cases hgi : s.getIndex e with
+    | error _ => simp
+    | ok r => cases r <;> simp
+  apply wfr_of_pruned hs hw hp c1 c2 c3 c4 c5
   · -- roots
     intro p hp'
     obtain ⟨h1, h2⟩ := (hmem p).mp hp'
     by_cases hn : p.1 ∈ s.succs t
     · have hne : s'.preds p.1 ≠ [] := by
         intro h
-        have : p0 ∈ s'.preds p.1 := mem_preds.mpr ((hedge _ _).mpr (Or.inr ⟨rfl, hn⟩))
+        have : p0 ∈ s'.preds p.1 := (hpredc _ hn p0).mpr (Or.inr rfl)
         rw [h] at this; simp at this
       have hne' : s.preds p.1 ≠ [] := by
         intro h
@@ -570,9 +791,9 @@ theorem wfr_relinked {s s2 s' : Sys π ν} (hs : Sane s) (hs' : Sane s') (hw : W
     intro p hp' hm
     obtain ⟨h1, h2⟩ := (hmem p).mp hp'
     by_cases hn : p.1 ∈ s.succs t
-    · rcases hchild' _ hn with h | h
-      · omega
-      · exact hw.multi p h1 h
+    · by_cases hm0 : 1 < (s.preds p.1).length
+      · exact hw.multi p h1 hm0
+      · have := hchild _ hn (by omega); omega
     · rw [hsame _ h2 hn] at hm; exact hw.multi p h1 hm
   · -- links
     intro e he pc cc h1 h2
@@ -592,69 +813,185 @@ theorem wfr_relinked {s s2 s' : Sys π ν} (hs : Sane s) (hs' : Sane s') (hw : W
       have hcc := mem_of_payload? h2
       have : kindOfC cc ≠ .source := fun h => hne' ((hw.roots (e.2, cc) hcc).mpr h)
       exact accepts_of (accepts_not_load a1) (fun h => this ((ctype_source_iff _).mp h))
-  · -- multi-input nodes are untouched
+  · -- recorded inputs
     intro p hp' hm
     obtain ⟨h1, h2⟩ := (hmem p).mp hp'
     by_cases hn : p.1 ∈ s.succs t
-    · exfalso
-      rcases hchild' _ hn with h | h
-      · omega
-      · have := hchild _ hn (hsafe _ hn h)
+    · -- a child of `t` that still has several inputs: the PMux
+      have hm0 : 1 < (s.preds p.1).length := by
+        apply Decidable.byContradiction
+        intro h
+        have := hchild _ hn (by omega); omega
+      obtain ⟨l, hl, hl', hlnd⟩ := hw.inputs p h1 hm0
+      obtain ⟨pl, hpl, hklen, hres⟩ := parentsOf_multi_unfold hm0 hl
+      have hllen : l.length = (s.preds p.1).length := by
+        have := resolveList_length hres
+        rw [List.length_take] at this
         omega
-    · refine ⟨hsame _ h2 hn, ?_⟩
-      intro q hq
-      simp only [List.mem_singleton]
-      intro e
-      exact hn (mem_succs.mpr (e ▸ mem_preds.mp hq))
+      -- `l` covers all predecessors
+      have hcover : ∀ q ∈ s.preds p.1, some q ∈ l := by
+        intro q hq
+        have := subset_of_nodup_of_length_le (l := l) (m := (s.preds p.1).map some) hlnd
+          (fun x hx => by obtain ⟨q', hq', rfl⟩ := hl' x hx; exact List.mem_map.mpr ⟨q', hq', rfl⟩)
+          (by simp [hllen])
+        exact this _ (List.mem_map.mpr ⟨q, hq, rfl⟩)
+      -- what a consulted name means after the rewrite
+      let f : String → String := fun e => if s.refersTo t e then nameOfC pc0 else e
+      have hgf : ∀ e ∈ pl.take (s.preds p.1).length, ∀ q, resolve s.nodes s.rails e = .ok (some q) →
+          g (f e) = if q = t then some p0 else some q := by
+        intro e he q hq
+        rw [← getIndex_eq_resolve] at hq
+        by_cases hqt : q = t
+        · have : s.refersTo t e = true := (hrefers e).mpr (hqt ▸ hq)
+          simp only [f, this, if_true, hqt]
+          exact hgp0
+        · have hfalse : s.refersTo t e = false := by
+            cases h : s.refersTo t e with
+            | false => rfl
+            | true =>
+              have := (hrefers e).mp h
+              rw [hq] at this
+              simp only [Except.ok.injEq, Option.some.injEq] at this
+              exact absurd this hqt
+          simp only [f, hfalse, hqt, if_false]
+          have := pruned_stab hs hw hp c2 c5 hq (by simpa using hqt)
+          rw [hg] at this
+          simpa using this
+      let A := (pl.take (s.preds p.1).length).map f
+      let B := (pl.drop (s.preds p.1).length).map f
+      have hsplit : pl.map f = A ++ B := by
+        simp only [A, B, ← List.map_append, List.take_append_drop]
+      let D := dedupeP g A []
+      -- the values of `A` are exactly the new predecessors
+      have hAvals : ∀ x, x ∈ A.map g ↔ ∃ q ∈ s'.preds p.1, x = some q := by
+        intro x
+        simp only [A, List.map_map, List.mem_map, Function.comp]
+        constructor
+        · rintro ⟨e, he, rfl⟩
+          obtain ⟨r, hr, her⟩ := (resolveList_mem hres).2 e he
+          obtain ⟨q, hq, rfl⟩ := hl' r hr
+          rw [hgf e he q her]
+          by_cases hqt : q = t
+          · simp only [hqt, if_true]
+            exact ⟨p0, (hpredc _ hn p0).mpr (Or.inr rfl), rfl⟩
+          · simp only [hqt, if_false]
+            exact ⟨q, (hpredc _ hn q).mpr (Or.inl ⟨hq, hqt⟩), rfl⟩
+        · rintro ⟨q, hq, rfl⟩
+          rcases (hpredc _ hn q).mp hq with ⟨hq1, hq2⟩ | hq1
+          · obtain ⟨e, he, her⟩ := (resolveList_mem hres).1 _ (hcover q hq1)
+            exact ⟨e, he, by rw [hgf e he q her]; simp [hq2]⟩
+          · have htp : t ∈ s.preds p.1 := mem_preds.mpr (mem_succs.mp hn)
+            obtain ⟨e, he, her⟩ := (resolveList_mem hres).1 _ (hcover t htp)
+            exact ⟨e, he, by rw [hgf e he t her]; simp [hq1]⟩
+      have hDvals : ∀ x, x ∈ D.map g ↔ ∃ q ∈ s'.preds p.1, x = some q := by
+        intro x
+        rw [mem_dedupeP_map]
+        simp only [List.not_mem_nil, not_false_eq_true, and_true]
+        exact hAvals x
+      have hDnd : (D.map g).Nodup := nodup_dedupeP_map g A []
+      have hDlen : D.length = (s'.preds p.1).length := by
+        have h1 : (D.map g).length ≤ ((s'.preds p.1).map some).length :=
+          hDnd.length_le_of_subset (fun x hx => by
+            obtain ⟨q, hq, rfl⟩ := (hDvals x).mp hx; exact List.mem_map.mpr ⟨q, hq, rfl⟩)
+        have h2 : ((s'.preds p.1).map some).length ≤ (D.map g).length :=
+          (nodup_map_on (fun a _ b _ h => Option.some.inj h) (preds_nodup hs' p.1)).length_le_of_subset
+            (fun x hx => by
+              obtain ⟨q, hq, rfl⟩ := List.mem_map.mp hx; exact (hDvals _).mpr ⟨q, hq, rfl⟩)
+        simp only [List.length_map] at h1 h2
+        omega
+      have hpn' : dget s'.pnames p.1 = some (D ++ dedupeP g B ([] ++ D.map g)) := by
+        rw [c6, if_pos hn, hpl]
+        simp only [Option.map_some]
+        show some (dedupeP g (pl.map f) []) = _
+        rw [hsplit, dedupeP_append]
+      refine ⟨D.map g, ?_, ?_, hDnd⟩
+      · unfold Sys.parentsOf
+        have hle : ¬ (s'.preds p.1).length ≤ 1 := by omega
+        simp only [hle, if_false, hpn']
+        rw [if_neg (by simp [hDlen])]
+        rw [resolveAll_eq, ← hDlen, List.take_left']
+        · exact resolveList_of_total (fun q => by rw [← getIndex_eq_resolve]; exact hg q) D
+        · rfl
+      · intro x hx; exact (hDvals x).mp hx
+    · apply inputs_kept hs hw hp c2 c5 h1 hm (hsame _ h2 hn)
+      · intro q hq
+        simp only [List.mem_singleton]
+        intro e
+        exact hn (mem_succs.mpr (e ▸ mem_preds.mp hq))
+      · rw [c6, if_neg hn]
 
 
 /-! ### del_comp -/
 
-theorem wfr_delComp {s : Sys π ν} (hs : Sane s) (hw : WFr s) (x : String) (d : Bool) (hsafe : s.SafeDel x d) :
-    WFr (s.delComp x d).1 := by
+theorem childRefsErr_none {s : Sys π ν} (hw : WFr s) {L : List Nat} (hpn : ∀ c ∈ L, c ∈ dkeys s.pnames) :
+    s.childRefsErr L = none := by
+  induction L with
+  | nil => rfl
+  | cons c cs ih =>
+    unfold Sys.childRefsErr
+    obtain ⟨pl, hpl⟩ := dget_isSome_iff.mpr (hpn c (by simp))
+    rw [hpl]
+    simp only
+    rw [resolveAll_eq]
+    obtain ⟨res, hres⟩ := resolveList_total (N := s.nodes) (R := s.rails) (l := pl)
+      (fun x _ => by rw [← getIndex_eq_resolve]; exact getIndex_ok hw x)
+    rw [hres]
+    exact ih (fun d hd => hpn d (List.mem_cons_of_mem _ hd))
+
+theorem dget_map_snd {κ β γ : Type} [DecidableEq κ] (d : List (κ × β)) (f : κ → β → γ) (k : κ) :
+    dget (d.map fun kp => (kp.1, f kp.1 kp.2)) k = (dget d k).map (f k) := by
+  induction d with
+  | nil => rfl
+  | cons kp rest ih =>
+    by_cases hk : kp.1 = k
+    · subst hk; simp [dget]
+    · simp [dget, hk, ih]
+
+/-- what `del_comp` does to a well-formed state: rejected with the state untouched, or accepted with a
+    well-formed result -/
+theorem delComp_spec {s : Sys π ν} (hs : Sane s) (hw : WFr s) (hpn : ∀ n ∈ s.ids, n ∈ dkeys s.pnames)
+    (x : String) (d : Bool) :
+    (s.delComp x d = (s, .raised "ValueError")) ∨ ((s.delComp x d).2 = .ok ∧ WFr (s.delComp x d).1) := by
   have hsane := sane_delComp hs x d
   unfold Sys.delComp Sys.fail at hsane ⊢
   simp only at hsane ⊢
   split
-  · exact hw
-  · exact hw
-  · next t ht =>
-    simp only [ht] at hsane
+  · exact Or.inl rfl
+  · next t hxget =>
+    simp only [hxget] at hsane
     rw [parentsErr_none hw] at hsane ⊢
     simp only at hsane ⊢
-    have htl : t ∈ s.ids := getIndex_live hw ht
-    rw [if_neg (by simpa using htl)] at hsane ⊢
-    -- the target is addressed by its name (SafeDel, F20)
-    have hx : x ∈ dkeys s.nodes := by
-      rcases hsafe.1 with h | h
-      · exact h
-      · rw [h] at ht; simp at ht
-    have hxget : dget s.nodes x = some t := by
-      unfold Sys.getIndex at ht
-      obtain ⟨v, hv⟩ := dget_isSome_iff.mpr hx
-      simp only [hv, Except.ok.injEq, Option.some.injEq] at ht
-      rw [hv, ht]
-    obtain ⟨p, hpm, hpn, hpt⟩ := nodes_get_live hw hxget
+    obtain ⟨p, hpm, hpn', hpt⟩ := nodes_get_live hw hxget
     obtain ⟨t', tc⟩ := p
-    simp only at hpn hpt; subst hpt
+    simp only at hpn' hpt; subst hpt
+    have htl : t' ∈ s.ids := mem_ids_of_mem hpm
+    rw [if_neg (by simpa using htl)] at hsane ⊢
     obtain ⟨l, hl, hl', hlnil⟩ := parentsOf_ok hw hpm
     simp only at hl hl' hlnil
     rw [hl] at hsane ⊢
     simp only at hsane ⊢
     split
-    · exact hw
+    · exact Or.inl rfl
     · next hg1 =>
       rw [if_neg hg1] at hsane
       split
-      · exact hw
+      · exact Or.inl rfl
       · next hg2 =>
         rw [if_neg hg2] at hsane
+        right
         have hrk := regsKnow_of_wfr hw
         have htpay : s.payload? t' = some tc := payload?_of_mem hs hpm
+        have hsucc_pn : ∀ c ∈ s.succs t', c ∈ dkeys s.pnames := fun c hc =>
+          hpn c (hs.edges_live _ (mem_succs.mp hc)).2
+        have hcre : (if (!d) = true then s.childRefsErr (s.succs t') else none) = none := by
+          split
+          · exact childRefsErr_none hw hsucc_pn
+          · rfl
+        rw [hcre] at hsane ⊢
+        simp only at hsane ⊢
         cases d with
         | true =>
           simp only [if_true] at hsane ⊢
-          -- the deletion loop
           have hDlive : ∀ c ∈ s.descendants t', c ∈ s.ids := by
             intro c hc
             obtain ⟨b, hb⟩ := (mem_descendants.mp hc).2.last_mem
@@ -675,12 +1012,12 @@ theorem wfr_delComp {s : Sys π ν} (hs : Sane s) (hw : WFr s) (x : String) (d :
           have hm1 := mem_of_payload? htpay1
           obtain ⟨o2, p2⟩ := pruned_one' hs1 htpay1 (hrk1.nodes _ hm1) (hrk1.pconf _ hm1) (hrk1.groups _ hm1)
             (hrk1.rails _ hm1)
-          try simp only at hpn
-          rw [hpn] at o2 p2
+          rw [hpn'] at o2 p2
           generalize hr2 : (s1.removeNode t').delRegs x = r2 at o2 p2 hsane ⊢
           obtain ⟨s2, out2⟩ := r2
           simp only at o2 p2; subst o2
           simp only
+          refine ⟨by first | rfl | trivial, ?_⟩
           have hP := pruned_trans hs (K1 := s.descendants t') (K2 := [t'])
             (fun k hk h => by simp at hk; subst hk; exact htD h) p1 p2
           apply wfr_pruned_closed hs hw hP
@@ -697,11 +1034,9 @@ theorem wfr_delComp {s : Sys π ν} (hs : Sane s) (hw : WFr s) (x : String) (d :
           simp only [Bool.false_eq_true, if_false] at hsane ⊢
           unfold Sys.andThen at hsane ⊢
           simp only at hsane ⊢
-          have hm := hpm
-          obtain ⟨o2, p2⟩ := pruned_one' hs htpay (hrk.nodes _ hm) (hrk.pconf _ hm) (hrk.groups _ hm)
-            (hrk.rails _ hm)
-          try simp only at hpn
-          rw [hpn] at o2 p2
+          obtain ⟨o2, p2⟩ := pruned_one' hs htpay (hrk.nodes _ hpm) (hrk.pconf _ hpm) (hrk.groups _ hpm)
+            (hrk.rails _ hpm)
+          rw [hpn'] at o2 p2
           generalize hr2 : (s.removeNode t').delRegs x = r2 at o2 p2 hsane ⊢
           obtain ⟨s2, out2⟩ := r2
           simp only at o2 p2; subst o2
@@ -709,12 +1044,12 @@ theorem wfr_delComp {s : Sys π ν} (hs : Sane s) (hw : WFr s) (x : String) (d :
           have hs2 : Sane s2 := by
             have := sane_delRegs (sane_removeNode hs t') x
             rw [hr2] at this; exact this
-          -- `pe` is not empty (a source must be deleted with its children)
           have hlne : l ≠ [] := by
             intro e; apply hg1; simp [e]
           cases hsucc : s.succs t' with
           | nil =>
             simp only
+            refine ⟨by first | rfl | trivial, ?_⟩
             apply wfr_pruned_closed hs hw p2
             intro e he h1
             simp only [List.mem_singleton] at h1
@@ -753,18 +1088,85 @@ theorem wfr_delComp {s : Sys π ν} (hs : Sane s) (hw : WFr s) (x : String) (d :
               generalize hr3 : s2.relink p0 (s.succs t') = r3 at o3 x1 x3 x4 x5 x6 x7 x8 x9 hsane ⊢
               obtain ⟨s3, out3⟩ := r3
               simp only at o3 x1 x3 x4 x5 x6 x7 x8 x9 hsane ⊢
-              apply wfr_relinked hs hsane hw hpm hp0 p2 x1 x2 x3 x4 x5 x6 x7 x8 x9
-              -- SafeDel (F19)
-              have hs19 := hsafe.2 rfl
-              rw [hxget] at hs19
-              simp only at hs19
-              intro c hc hm q hq
-              rcases hs19 c hc hm q hq with h | h
-              · exact Or.inl h
-              · right
-                rw [hl, hlc] at h
-                simp [Except.toOption] at h
-                exact h.symm
+              subst o3
+              simp only at hsane ⊢
+              -- pname
+              obtain ⟨pc0, hpc0⟩ := payload?_of_mem_ids (hs.edges_live _ hp0e).1
+              have hpc0' : s3.payload? p0 = some pc0 := by
+                have := payload?_filter hs p2.comps p0
+                unfold Sys.payload? at this ⊢
+                rw [x4, this]; simp [hp0t, show dget s.comps p0 = some pc0 from hpc0]
+              rw [hpc0'] at hsane ⊢
+              simp only at hsane ⊢
+              -- the state before the de-duplication loop
+              generalize hs4 : s3.mapPnames (s.succs t') (fun p => if s.refersTo t' p then nameOfC pc0 else p) = s4
+                at hsane ⊢
+              have h4c : s4.comps = s3.comps := by rw [← hs4]; rfl
+              have h4e : s4.edges = s3.edges := by rw [← hs4]; rfl
+              have h4n : s4.nodes = s3.nodes := by rw [← hs4]; rfl
+              have h4p : s4.phaseConf = s3.phaseConf := by rw [← hs4]; rfl
+              have h4g : s4.groups = s3.groups := by rw [← hs4]; rfl
+              have h4r : s4.rails = s3.rails := by rw [← hs4]; rfl
+              have h4pn : ∀ k, dget s4.pnames k =
+                  if k ∈ s.succs t' then
+                    (dget s.pnames k).map (List.map fun p => if s.refersTo t' p then nameOfC pc0 else p)
+                  else dget s.pnames k := by
+                intro k
+                rw [← hs4]
+                unfold Sys.mapPnames
+                simp only
+                rw [x9, p2.pnames]
+                let F : Nat → List String → List String := fun k' pl =>
+                  if (k' ∈ s.succs t') then pl.map (fun p => if s.refersTo t' p then nameOfC pc0 else p) else pl
+                have := dget_map_snd s.pnames F k
+                have hfun : (s.pnames.map fun (kp : Nat × List String) =>
+                    if kp.1 ∈ s.succs t' then
+                      (kp.1, kp.2.map fun p => if s.refersTo t' p then nameOfC pc0 else p)
+                    else kp) = s.pnames.map fun kp => (kp.1, F kp.1 kp.2) := by
+                  apply List.map_congr_left
+                  intro kp _
+                  simp only [F]
+                  split <;> rfl
+                rw [hfun, this]
+                simp only [F]
+                split
+                · rfl
+                · cases dget s.pnames k <;> rfl
+              have hreg4 : RegsExact s4 :=
+                regsExact_of_pruned hs hw p2 (by rw [h4c, x4]) (by rw [h4n, x5]) (by rw [h4r, x8])
+              let g : String → Option Nat := fun p => match s4.getIndex p with | .ok r => r | .error _ => none
+              have hg : ∀ p, s4.getIndex p = .ok (g p) := by
+                intro p
+                obtain ⟨r, hr⟩ := getIndex_ok' hreg4 p
+                simp only [g, hr]
+              have hsucc_nd : (s.succs t').Nodup := by
+                unfold Sys.succs
+                refine nodup_map_on ?_ (hs.edges_nodup.filter _)
+                intro a ha b hb hab
+                simp only [List.mem_filter, decide_eq_true_eq] at ha hb
+                exact Prod.ext (ha.2.trans hb.2.symm) hab
+              obtain ⟨o5, d1, d2, d3, d4, d5, d6, d7⟩ := dedupeChilds_spec (s := s4) (g := g) (s.succs t') hsucc_nd
+                (fun p => by rw [← getIndex_eq_resolve]; exact hg p)
+                (fun c hc => by
+                  obtain ⟨pl, hpl⟩ := dget_isSome_iff.mpr (hsucc_pn c hc)
+                  rw [h4pn, if_pos hc, hpl]; exact ⟨_, rfl⟩)
+              generalize hr5 : s4.dedupeChilds (s.succs t') = r5 at o5 d1 d2 d3 d4 d5 d6 d7 hsane ⊢
+              obtain ⟨s5, out5⟩ := r5
+              simp only at o5 d1 d2 d3 d4 d5 d6 d7 hsane ⊢
+              subst o5
+              refine ⟨by first | rfl | trivial, ?_⟩
+              have hg5 : ∀ p, s5.getIndex p = .ok (g p) := by
+                intro p
+                rw [getIndex_eq_resolve, d3, d6, ← getIndex_eq_resolve]; exact hg p
+              apply wfr_relinked hs hsane hw hpm hp0 hpc0 p2 (X := X)
+                (by rw [d2, h4e, x1]) x2 (by intro c hc; rw [d2, h4e]; exact x3 c hc)
+                (by rw [d1, h4c, x4]) (by rw [d3, h4n, x5]) (by rw [d4, h4p, x6]) (by rw [d5, h4g, x7])
+                (by rw [d6, h4r, x8]) g hg5
+              intro k
+              rw [d7 k, h4pn k]
+              split
+              · cases dget s.pnames k <;> rfl
+              · rfl
 
 end
 end SysLoss
